@@ -1,6 +1,7 @@
 import HcipyVerif.Model.Proto
 import HcipyVerif.Model.GridOps
 import HcipyVerif.Model.GridHeap
+import HcipyVerif.Model.GridShare
 
 /-! Line-protocol front end of the C10 model: an object store of grids plus the caller-owned arrays
 (see Model/GridOps.lean, `stepWorld`). -/
@@ -8,7 +9,8 @@ namespace HcipyVerif.Driver.C10
 open HcipyVerif.Grid
 
 structure St where
-  world : World := {}
+  /-- grids + caller arrays + which `Coords` object every grid holds (Model/GridShare.lean) -/
+  world : SWorld := {}
   /-- the reference model (`ref …` requests): the same histories with arrays held by reference -/
   rworld : RWorld := {}
 
@@ -19,7 +21,7 @@ def step (st : St) (toks : List String) : St × String :=
     | some (w, out) => ({ st with rworld := w }, out)
     | none => (st, "bad-op")
   | _ =>
-    match stepWorld st.world toks with
+    match stepShare st.world toks with
     | some (w, out) => ({ st with world := w }, out)
     | none => (st, "bad-op")
 
